@@ -19,6 +19,10 @@ def norm_mid(t, names=("mid", "_mid")):
         return t
     if t[0] == "call" and t[1][0] == "sym" and t[1][1] in names and len(t[2]) == 2 and not t[3]:
         a, b = norm_mid(t[2][0], names), norm_mid(t[2][1], names)
+        # mid(x if c else y, u if c else v) is (mid(x, u) if c else mid(y, v)): a case distinction made on the operands or on
+        # the result is the same subdivision
+        if a[0] == "ite" and b[0] == "ite" and a[1] == b[1]:
+            return sym.mk_ite(a[1], ("call", MID, tuple(sorted((a[2], b[2]), key=repr)), ()), ("call", MID, tuple(sorted((a[3], b[3]), key=repr)), ()))
         return ("call", MID, tuple(sorted((a, b), key=repr)), ())
     if isinstance(t[0], str):
         return (t[0],) + tuple(norm_mid(x, names) if isinstance(x, tuple) else x for x in t[1:])
